@@ -15,7 +15,8 @@
 //!     MAX_* frame (matched with the sender's own `packet_sent` log), asymmetric delay with jitter.  All faults stop (datagram-count and
 //!     time window), so the bounded-fault liveness monitor applies: everything completes, byte-exact, within 120 s virtual.
 //!
-//! Monitors: C02's (integrity, panic, hang, close-by-network-fault, liveness:bounded-faults-incomplete, close-not-seen) and
+//! Monitors: C02's (integrity, panic, hang, close-by-network-fault, liveness:bounded-faults-incomplete — here split off:
+//! liveness:bounded-faults-handshake-stalled when the server application was never handed the connection —, close-not-seen) and
 //! the diagnosis `stall:flow-control:{conn,stream,streams}`: when a case does not complete, the endpoints' own qlog
 //! (`sim::PacketTap`) is searched for a sender that stopped at a flow-control limit — bytes / streams sent vs. the last and
 //! the largest MAX_DATA / MAX_STREAM_DATA / MAX_STREAMS it processed and the largest its peer says it sent.  No model is consulted.
@@ -588,6 +589,13 @@ fn run(o: &Opts) {
         })).collect();
         for h in hs {
             let (id, c, s, mode, plans, profile, out, pk) = h.join().expect("case thread");
+            if std::env::var("GMQ_C02S_DUMP").is_ok() {
+                // debugging aid: the endpoints' packet log of the case (virtual ms since the first event)
+                let t0 = pk.first().map(|e| e.at);
+                for e in &pk {
+                    eprintln!("pkt t={:>8.1}ms {} {} {} pn={:?} {:?}", t0.map(|t| (e.at - t).as_secs_f64() * 1e3).unwrap_or(0.0), e.ep, if e.rcvd { "rcvd" } else { "sent" }, e.ty, e.pn, e.frames);
+                }
+            }
             sink.case(&id.to_string());
             sink.branch(&format!("profile:{}", profile.name));
             sink.branch(&format!("params:c={} s={}", if c.small { "small" } else { "default" }, if s.small { "small" } else { "default" }));
@@ -661,8 +669,10 @@ fn run(o: &Opts) {
                 }
                 let bad_term = [&r.term_c, &r.term_s].iter().any(|t| t.as_ref().is_some_and(|k| !c02::allowed_term(k)));
                 if out.panics.is_empty() && !bad_term {
+                    // own signature for "the handshake never got through": the server application was never handed the
+                    // connection (`QuicListeners::accept` did not return) although the faults are bounded
                     sink.monitor_fail(
-                        "liveness:bounded-faults-incomplete",
+                        if r.server_saw_conn { "liveness:bounded-faults-incomplete" } else { "liveness:bounded-faults-handshake-stalled" },
                         &format!("profile {}: after {} ms virtual the transfers were not complete (client_done={:?} server_done={:?} dirs {}/{} term_c={:?} term_s={:?} faults {:?}; flow-control diagnosis: {}; params c={{{}}} s={{{}}})",
                             profile.name, r.virt_ms, r.client_done, r.server_done, r.complete_dirs, r.expected_dirs, r.term_c, r.term_s, r.counts,
                             if diags.is_empty() && hints.is_empty() { "no sender sits at a limit".to_string() } else { diags.iter().map(|d| d.0.clone()).chain(hints.iter().map(|h| format!("hint: {h}"))).collect::<Vec<_>>().join(", ") },
